@@ -96,7 +96,7 @@ PROPS["C05"] = {
 }
 
 PROPS["C18"] = {
-    "modules": ["SamlVerif.Props.C18"],
+    "modules": ["SamlVerif.Props.C18", "SamlVerif.Props.Pure"],
     "trusted_base": SP_TB + ["the validator reads time.Now(), not the library clock: freshness cases keep a 5 s guard band around the boundary"],
     "assumptions": ["inflate(deflate b) = b for the encodings-agree theorem"],
     "rule": "both encodings x 4 entry points x signature transformations (valid, none, untrusted key, edited after signing, relocated, duplicated, other trusted-looking key) "
@@ -106,7 +106,7 @@ PROPS["C18"] = {
 BIND_TB = ["modelled, not verified: compress/flate (abstract; exercised end to end by the harness), url.Parse / URL.String on the IdP endpoint "
            "(the model takes the endpoint's raw query as given), etree serialisation of the message"]
 PROPS["C12"] = {
-    "modules": ["SamlVerif.Props.C12"],
+    "modules": ["SamlVerif.Props.C12", "SamlVerif.Props.Pure"],
     "trusted_base": BIND_TB,
     "assumptions": ["inflate(deflate b) = b", "POST-form fields are covered by C14's escaper theorems"],
     "rule": "24 fixed hostile relay states/name IDs (& = # + % ; ? blanks quotes NUL-free controls, non-ASCII, >80 bytes) x 4 IdP endpoints (with/without query) "
@@ -115,7 +115,7 @@ PROPS["C12"] = {
             "message IDs under a recording RandReader",
 }
 PROPS["C13"] = {
-    "modules": ["SamlVerif.Props.C13"],
+    "modules": ["SamlVerif.Props.C13", "SamlVerif.Props.Pure"],
     "trusted_base": BIND_TB + ["RSA/ECDSA signing and goxmldsig enveloped signing are primitives (parameter `sign`); verification in the harness uses crypto/rsa, "
                               "crypto/ecdsa directly for the redirect binding and a fresh goxmldsig validation context for XML signatures"],
     "assumptions": [],
@@ -221,7 +221,7 @@ PROPS["C08"] = {
 }
 
 PROPS["C01"] = {
-    "modules": ["SamlVerif.Props.C01", "SamlVerif.Proofs.Tree"],
+    "modules": ["SamlVerif.Props.C01", "SamlVerif.Proofs.Tree", "SamlVerif.Props.Pure"],
     "trusted_base": ["symbolic cryptography: signature values, digest values and certificates are tokens; a ledger (built by the harness from every real signing event, honest or attacker) says which key signed which canonical SignedInfo "
                      "and which canonical content a digest token stands for (unforgeability + collision resistance are the hypothesis HonestLedger of C01_no_forgery)",
                      "modelled, not verified: XML tokenisation (xrv, encoding/xml, etree reader) - the model starts from the parsed tree; what encoding/xml extracts from an element (struct views of the Response header, of each candidate Assertion "
